@@ -3466,8 +3466,14 @@ class SetInstance(object):
         with cache.flush_disabled():
             cursor = database._exec_sql(sql, arguments)
         setdata.count = cursor.fetchone()[0]
-        if setdata.added: setdata.count += len(setdata.added)
-        if setdata.removed: setdata.count -= len(setdata.removed)
+        if reverse.is_collection:
+            if setdata.added: setdata.count += len(setdata.added)
+            if setdata.removed: setdata.count -= len(setdata.removed)
+        else:
+            # an item saved on its own by item.flush() stays in added / removed although its row already carries the
+            # change: only the items whose row does not say so yet are not reflected in the number just read
+            if setdata.added: setdata.count += sum(1 for item in setdata.added if item._dbvals_.get(reverse) is not obj)
+            if setdata.removed: setdata.count -= sum(1 for item in setdata.removed if item._dbvals_.get(reverse, obj) is obj)
         return setdata.count
     @cut_traceback
     def __iter__(wrapper):
